@@ -256,6 +256,8 @@ class Ctx:
         if unk_c:
             return self.error(rule, instance, f"code value left the recognised language (unknown sub-term): {sa[:400]}", site)
         new_ops = foreign_vocabulary(ct, rt)
+        if new_ops and os.environ.get("VERIF_NO_FOREIGN"):
+            new_ops = set()  # debugging aid: show the differing sites of an undecided comparison
         if new_ops:
             # the code computes the value with operations the reference formula does not use: the
             # normal form cannot decide equality (an equivalent rewrite and a fault look alike)
